@@ -85,6 +85,19 @@ check("C12",
       "come from Session.tla; MC_Engine checks InvInputsOnce/InvCausal on all interleavings.",
       ENG, "TLA+ engine model + trace validation with causality clauses (TLC)", "DESIGN.md §4 C12")
 
+check("C16",
+      "Sylvester.tla states each solver's equation over GF(p^2): the diagonal solver entrywise with 'zero where the "
+      "energies coincide'; the direct solver for the right-implicit (rows: V_a (E_a - h0) Pc = Y_a Pc, V Pc = V) and "
+      "left-implicit (columns, non-Hermitian) orientation with Pc = 1 - R L^dagger; direct_greens_function "
+      "((E - h) x = Pk v, x = Pk x); the KPM solver as the right-implicit equation. Each solver is called directly on "
+      "exact instances (dense/sparse incl. explicit stored zeros and scalar-zero blocks / sympy right-hand sides, "
+      "complex energies, degenerate explicit groups, biorthogonal bases from unimodular matrices, dyadic unitaries) and "
+      "TLC verifies the residual identity exactly.",
+      "Trusted: TLC/SANY 1.8.0, Json module, reduction mod p=46199; alpha_snap for the rounding paths: sparse-LU outputs "
+      "are snapped to denominators 2^12*840 within 1e-8, KPM outputs to 2^-10 within 200*atol (instances are built so the "
+      "true solution has such denominators; a value that cannot be snapped is a violation). KPM convergence for "
+      "arbitrary spectra is not modelled. The second-quantised solver is not covered here (needs the Fock model).",
+      "TLA+ residual equations checked by TLC on solver outputs (trace validation of direct solver calls)", "DESIGN.md §4 C16")
 check("C17",
       "Projector.tla models the object graph of ComplementProjector (cached transpose/adjoint/conjugate companions as the "
       "code builds them) with the Klein four-group acting on P = 1 - R L^dagger; TLC checks for all words of length <=5 "
